@@ -191,14 +191,16 @@ type pathQuery struct {
 	stopAt   func(ssa.Instruction) bool // path ends silently here (neither found nor continued)
 }
 
-// existsPath runs the query; when found it returns the witness instruction.
+// existsPath runs the query; when found it returns the witness instruction. Conditions
+// that are phis of boolean constants defined in the block of the If are resolved by the
+// edge the walk came in on (flag variables such as `shouldContinue`).
 func existsPath(q pathQuery) (ssa.Instruction, bool) {
 	type key struct {
-		b *ssa.BasicBlock
+		b, pred *ssa.BasicBlock
 	}
-	seen := map[*ssa.BasicBlock]bool{}
-	var walk func(b *ssa.BasicBlock, idx int) (ssa.Instruction, bool)
-	walk = func(b *ssa.BasicBlock, idx int) (ssa.Instruction, bool) {
+	seen := map[key]bool{}
+	var walk func(b *ssa.BasicBlock, idx int, pred *ssa.BasicBlock) (ssa.Instruction, bool)
+	walk = func(b *ssa.BasicBlock, idx int, pred *ssa.BasicBlock) (ssa.Instruction, bool) {
 		for i := idx; i < len(b.Instrs); i++ {
 			in := b.Instrs[i]
 			if q.target != nil && q.target(in) {
@@ -223,26 +225,43 @@ func existsPath(q pathQuery) (ssa.Instruction, bool) {
 				return nil, false
 			}
 		}
+		only := -1
+		if pred != nil && len(b.Instrs) > 0 {
+			if ifi, ok := b.Instrs[len(b.Instrs)-1].(*ssa.If); ok {
+				if ph, ok := ifi.Cond.(*ssa.Phi); ok && ph.Block() == b {
+					for pi, p := range b.Preds {
+						if p == pred {
+							if cst, ok := ph.Edges[pi].(*ssa.Const); ok && cst.Value != nil {
+								if cst.Value.String() == "true" {
+									only = 0
+								} else if cst.Value.String() == "false" {
+									only = 1
+								}
+							}
+						}
+					}
+				}
+			}
+		}
 		for si, s := range b.Succs {
+			if only >= 0 && si != only {
+				continue
+			}
 			if q.edgeOK != nil && !q.edgeOK(b, si) {
 				continue
 			}
-			if seen[s] {
+			k := key{s, b}
+			if seen[k] {
 				continue
 			}
-			seen[s] = true
-			if in, ok := walk(s, 0); ok {
+			seen[k] = true
+			if in, ok := walk(s, 0, b); ok {
 				return in, true
 			}
 		}
 		return nil, false
 	}
-	_ = key{}
-	// the start block may be re-entered through a loop: only mark it seen when starting at 0
-	if q.from.idx == 0 {
-		seen[q.from.b] = true
-	}
-	return walk(q.from.b, q.from.idx)
+	return walk(q.from.b, q.from.idx, nil)
 }
 
 // isErrNilTest recognises `err != nil` / `err == nil` conditions on values of type error
